@@ -92,7 +92,7 @@ package vm
 //@   assertcall Aspect).PostContractCall post-gas [C05 C06]: $6 == runGasOut
 //@   assertcall Aspect).PostContractCall post-message [C05]: $8 != nil && $8.Call != nil && sameslice($8.Call.Data, input) && sameslice($8.Call.Ret, ret) && $8.Call.Gas != nil && *$8.Call.Gas == $6
 //@   ensures exit-once-with-results [C08]: saved && exits == 1 && exGas == leftOverGas && sameslice(exRet, ret) && exErr == err
-//@   ensures cursor-restored [C07 C03]: tree.current == old(tree.current)
+//@   ensures cursor-restored [C03 C07 C10]: tree.current == old(tree.current)
 //@   ensures node-pushed [C07]: tree.count > old(tree.count) && node != nil
 //@   ensures failed-frame-reverted [C04]: err != nil ==> (snapTaken ==> statever == snapver) && (!snapTaken ==> statever == old(statever))
 //@   ensures halt-forfeits-gas [C02 C06]: snapTaken && err != nil && err != ErrExecutionReverted ==> leftOverGas == 0
@@ -102,6 +102,8 @@ package vm
 //@   ensures jp-off-silent [C05]: !jp ==> preN == 0 && postN == 0
 //@   ensures caller-gets-post-gas [C06]: postN == 1 && (err == nil || err == ErrExecutionReverted) ==> leftOverGas == postGas
 //@   ensures jp-out-of-gas [C06]: (preN == 1 && preErr != nil && errtext(preErr) == "out of gas") || (postN == 1 && postErr != nil && errtext(postErr) == "out of gas") ==> err == ErrOutOfGas && leftOverGas == 0
+//@   ensures post-failure-surfaces [C06]: postN == 1 && postErr != nil && errtext(postErr) != "out of gas" ==> err == postErr
+//@   ensures post-failure-forfeits-gas [C06]: postN == 1 && postErr != nil && postErr != ErrExecutionReverted ==> leftOverGas == 0
 //@   ensures jp-failure-fails-call [C04 C05 C06]: (preN == 1 && preErr != nil) || (postN == 1 && postErr != nil) ==> err != nil
 //@   ensures tracer-balanced [C18]: enters == ends && enters <= 1
 //@   ensures one-transfer [C13]: xfers <= 1 && (runN == 1 || pcruns == 1 ==> xfers == 1)
@@ -172,7 +174,7 @@ package vm
 //@   assertcall (*vm.EVMInterpreter).Run run-inside-snapshot [C04]: snapTaken && runN == 0
 //@   assertcall (*vm.Tracer).TransferWithRecord transfer-inside-snapshot [C04 C13]: snapTaken && saved && xfers == 0 && $2 == callerAddr && $3 == address && $4 == value
 //@   ensures exit-once-with-results [C08]: saved && exits == 1 && exGas == leftoverGas && sameslice(exRet, ret) && exErr == err
-//@   ensures cursor-restored [C07 C03]: tree.current == old(tree.current)
+//@   ensures cursor-restored [C03 C07 C10]: tree.current == old(tree.current)
 //@   ensures node-pushed [C07]: tree.count > old(tree.count)
 //@   ensures failed-frame-reverted [C04]: snapTaken && err != nil && (homestead || err != ErrCodeStoreOutOfGas) ==> statever == snapver
 //@   ensures halt-forfeits-gas [C02 C06]: snapTaken && err != nil && err != ErrExecutionReverted && (homestead || err != ErrCodeStoreOutOfGas) ==> leftoverGas == 0
